@@ -207,6 +207,23 @@ def _drive(ctx, fs, kind, cap, ops, keytype):
                     ctx.need(r == "D", "%s/get/default" % name, "get(absent, default) returned %r" % (r,))
                 else:
                     store("setdefault", k, mk_val(o[2]), via_setdefault=True)
+            elif op == "burst":
+                # n successful lookups of one key in a row: use counts far beyond what a 40-step history reaches otherwise
+                # (a counter that saturates or wraps at some width was seeded in round 16; nothing bounds the count)
+                if k in d:
+                    for _ in range(o[2]):
+                        r = run("get", lambda: c[k])
+                        if not ctx.need(r == d[k], "%s/get/stale-or-wrong-value" % name,
+                                        lambda: "lookup of %r returned %r, the value most recently stored is %r" % (k, r, d[k])):
+                            raise _Stop()
+                    note_touch(k)
+                    if lru:
+                        cands = {(p, touch(m, k)) for p, m in cands}
+                    else:
+                        cands = {(p, frozenset((a, b + o[2] if a == k else b) for a, b in m)) for p, m in cands}
+                    ctx.label("burst-hit")
+                    if o[2] >= 255:
+                        ctx.label("burst>=255")
             elif op == "del":
                 if k in d:
                     run(op, lambda: c.__delitem__(k))
@@ -495,11 +512,25 @@ def decode(code, restore_heavy):
     return [op]
 
 
+BURSTS = [3, 17, 64, 127, 128, 254, 255, 256, 257, 300, 511, 512, 1024, 1025]
+
+
 def case_strategy(kind, restore_heavy=False):
-    hist = st.one_of(common_codes(0, 12), common_codes(14, 40))
+    hist = st.one_of(common_codes(0, 12), common_codes(14, 40)).map(lambda cs: [decode(c, restore_heavy) for c in cs])
+    # a sixth of the histories: the same, with runs of lookups of one key spliced in (at most three per history)
+    burst = st.tuples(st.integers(0, 3), st.sampled_from(BURSTS), st.integers(0, 40))
+    bursty = st.tuples(common_codes(2, 24).map(lambda cs: [decode(c, True) for c in cs]), st.lists(burst, min_size=1, max_size=3)).map(
+        lambda t: _splice(t[0], t[1]))
     return st.fixed_dictionaries({
         "kind": st.just(kind), "cap": st.integers(1, 6), "keytype": st.sampled_from(["int", "int", "str", "tuple", "eqmix"]),
-        "ops": hist.map(lambda cs: [decode(c, restore_heavy) for c in cs])})
+        "ops": st.one_of(hist, hist, hist, hist, hist.map(list), bursty)})
+
+
+def _splice(ops, bursts):
+    ops = list(ops)
+    for k, n, at in bursts:
+        ops.insert(at % (len(ops) + 1), ["burst", k, n])
+    return ops
 
 
 def common_codes(a, b):
